@@ -126,7 +126,63 @@ func leafByID(id string) *leaf {
 			return &c12Leaves[i]
 		}
 	}
+	if strings.HasPrefix(id, "p:") {
+		return productLeaf(id)
+	}
 	return nil
+}
+
+// The product leg draws the name shape and the kind of an entry independently:
+// every shape x every kind. IDs are "p:<shape>:<kind>".
+var (
+	productShapes = []string{"plain", "bad", "tmp", "ig"}
+	productKinds  = []string{"file", "dir", "link", "fifo", "sock"}
+)
+
+func productLeaf(id string) *leaf {
+	parts := strings.Split(id, ":")
+	if len(parts) != 3 {
+		return nil
+	}
+	var name func(string) string
+	switch parts[1] {
+	case "plain":
+		name = plain
+	case "bad":
+		name = suf("\xff\xfe")
+	case "tmp":
+		name = pre(temporaryPrefix)
+	case "ig":
+		name = pre(ignoredPrefix)
+	default:
+		return nil
+	}
+	var mk func(dir, slot string) error
+	switch parts[2] {
+	case "file":
+		mk = mkFile(name, 3, 0o700)
+	case "dir":
+		mk = mkDirWith(name, true)
+	case "link":
+		mk = mkLink(name, "t")
+	case "fifo":
+		mk = func(dir, slot string) error { return mkfifo(filepath.Join(dir, name(slot))) }
+	case "sock":
+		mk = func(dir, slot string) error { return mksock(filepath.Join(dir, name(slot))) }
+	default:
+		return nil
+	}
+	return &leaf{id, mk}
+}
+
+func productIDs() []string {
+	var out []string
+	for _, sh := range productShapes {
+		for _, k := range productKinds {
+			out = append(out, "p:"+sh+":"+k)
+		}
+	}
+	return out
 }
 
 // c12tree places leaves in four slots: A and B in the root (names a…, b…),
@@ -153,7 +209,7 @@ type c12case struct {
 
 func (tr c12tree) hasIgnoredName() bool {
 	for _, id := range []string{tr.A, tr.B, tr.X, tr.Y} {
-		if strings.HasPrefix(id, "ig-") {
+		if strings.HasPrefix(id, "ig-") || strings.HasPrefix(id, "p:ig:") {
 			return true
 		}
 	}
@@ -685,8 +741,9 @@ func TestC12(t *testing.T) {
 	if vr.Thorough() {
 		shape = "every triple of leaves in slots (a, d/x, d/e/y) and every pair in slots (a,b)"
 	}
-	r.Rule(fmt.Sprintf("%s over a %d-leaf alphabet %v, plus the root itself as a regular file of each file kind and a missing root; each tree is created on disk and scanned cold by core.Scan under 3 symbolic link modes x 2 permissions modes (and again with the ignore pattern \"ig-*\" when it contains an ig- name). Before that, the mid-file fault leg: a fixed tree of six regular files (1..100 000 bytes, two levels) under each of 6 name rotations, each file > 32 KiB in turn faulted at every read ordinal k (EIO on that read, or one byte appended to the file just before it), portable/portable: the faulted file must be problematic (EIO) and every other entry and every returned digest-cache entry must match the walk exactly. And the warm leg: a fixed 10-entry tree is scanned cold, one edit out of {chmod +x, chmod -x, chmod of another bit, same-size rewrite with later mtime, size change, same-size same-mtime inode swap, link retarget, file/dir/link type changes, removal} is applied, and a plain full scan that is handed the first scan's digest and ignore caches (no baseline, no recheck paths) must again match the walk, as must digest/mode/size of every entry of the returned digest cache; all 6 mode pairs. Non-trivial = at least one slot is occupied / the fault fired / an edit was applied; distinct by (tree, modes, patterns) / (rotation, target, k, action).", shape, n, ids))
-	r.Assume("Linux/ext4 scratch directory, probe mode \"probe\"; Unicode-decomposing filesystems are not available here",
+	r.Rule(fmt.Sprintf("%s over a %d-leaf alphabet %v, plus the root itself as a regular file of each file kind and a missing root; each tree is created on disk and scanned cold by core.Scan under 3 symbolic link modes x 2 permissions modes (and again with the ignore pattern \"ig-*\" when it contains an ig- name). Before that, the product leg: name shape {plain, non-UTF-8, temporary-prefixed, ignored} x kind {file, dir, link, FIFO, socket} as a full product, each combination alone at depths 0..2 and every pair of combinations side by side, all mode pairs. Then the mid-file fault leg: a fixed tree of six regular files (1..100 000 bytes, two levels) under each of 6 name rotations, each file > 32 KiB in turn faulted at every read ordinal k (EIO on that read, or one byte appended to the file just before it), portable/portable: the faulted file must be problematic (EIO) and every other entry and every returned digest-cache entry must match the walk exactly. And the warm leg: a fixed 10-entry tree is scanned cold, one edit out of {chmod +x, chmod -x, chmod of another bit, same-size rewrite with later mtime, size change, same-size same-mtime inode swap, link retarget, file/dir/link type changes, removal} is applied, and a plain full scan that is handed the first scan's digest and ignore caches (no baseline, no recheck paths) must again match the walk, as must digest/mode/size of every entry of the returned digest cache; all 6 mode pairs. Non-trivial = at least one slot is occupied / the fault fired / an edit was applied; distinct by (tree, modes, patterns) / (rotation, target, k, action).", shape, n, ids))
+	r.Assume("a snapshot must also pass its own EnsureValid and be proto.Marshal-able (it is a wire message; a raw non-UTF-8 key breaks that)",
+		"Linux/ext4 scratch directory, probe mode \"probe\"; Unicode-decomposing filesystems are not available here",
 		"running as root: unreadable content is produced by verifhook-injected EACCES on openat / readlinkat and EIO on read, keyed by name prefix",
 		"in permissions mode manual a snapshot reports no executability (documented meaning of the mode)",
 		"for links in portable mode the expected classification is the lexical oracle of C16; the alphabet contains no target on which the unfixed C16 defect shows (that is C16's finding)",
@@ -729,6 +786,28 @@ func TestC12(t *testing.T) {
 		}
 		must(t, os.RemoveAll(base))
 	}
+
+	// ---- product leg (run first): name shape {plain, non-UTF-8, temporary-
+	// prefixed, ignored} x kind {file, dir, link, FIFO, socket}, every
+	// combination alone at depth 0, 1 and 2, and every pair of combinations in
+	// the same directory; all mode pairs (and the ignore pattern when present).
+	func() {
+		l := r.Local()
+		defer l.Flush()
+		dir := filepath.Join(scratch, "product")
+		must(t, os.Mkdir(dir, 0o700))
+		serial := 0
+		pids := productIDs()
+		for _, a := range pids {
+			evalTree(l, dir, &serial, c12tree{A: a, B: "-", X: "-", Y: "-"})
+			evalTree(l, dir, &serial, c12tree{A: "-", B: "-", X: a, Y: "-"})
+			evalTree(l, dir, &serial, c12tree{A: "-", B: "-", X: "-", Y: a})
+			for _, b := range pids {
+				evalTree(l, dir, &serial, c12tree{A: a, B: b, X: "-", Y: "-"})
+			}
+		}
+	}()
+	r.Sample(c12case{Tree: c12tree{A: "p:bad:fifo", B: "p:tmp:link", X: "-", Y: "-"}, Sym: 2, Perm: 1})
 
 	// ---- mid-file fault leg (run first so that no budget can cut it) ----
 	// A fixed tree of six regular files (1, 5, 3, 40 000, 40 000 and 100 000
